@@ -17,7 +17,7 @@ pub fn meta() -> Meta {
         rule: "every accepted input b: P = parse(b); build_bytes_vec(P), build_bytes_vec_compressed(P) and the writer-based write_to / write_compressed_to through a writer that accepts 3 bytes per call must succeed, their outputs must parse, and the \
 re-parsed packets must equal P in every observable field (model comparison: id, flags, opcode, rcode, EDNS, questions, every record field). Inputs: \
 reference-encoded messages with arbitrary legal (non-canonical) compression incl. pointers inside RDATA of non-compressible types, unknown types, \
-empty RDATA for every type, OPT at any position, every 16-bit header word x small bodies, RDLENGTH-stretched records, accepted members of the C01 \
+empty RDATA for every type, OPT at any position, every 16-bit header word x small bodies, messages over 16 KiB with a name placed at every offset 16340..16400 and repeated later, RDLENGTH-stretched records, accepted members of the C01 \
 corpus and of seeded havoc. non-trivial = accepted input with >= 1 record or question or a non-zero flag word; distinct = hash of bytes",
         assumptions: &["observation goes through public fields/accessors plus the read-only raw-byte hooks"],
         exhaustive: false,
@@ -144,6 +144,25 @@ pub fn run(ctx: &mut Ctx) {
         ctx.sample("foreign", || json!({"bytes": hex(&b), "pointers_in_non_compressible_rdata": fp}));
         if check_bytes(ctx, "foreign", idx, &b) && fp > 0 {
             ctx.count("accepted_with_foreign_compression");
+        }
+    }
+    // foreign messages longer than 16 KiB in which a name starts just below / at / above offset 16383 and is repeated
+    // later (plain or with foreign compression): re-serialising them meets the limit of what a pointer can express
+    if ctx.family_active("window") && !ctx.slow_tool {
+        let reps = tier.pick(2u64, 40u64);
+        for off in 16340usize..=16400 {
+            for rep in 0..reps {
+                let idx = (off as u64) * 100 + rep;
+                if !ctx.take("window", idx) {
+                    continue;
+                }
+                let mut r = ctx.rng("window", idx);
+                let p = super::c03::window_packet(&mut r, off);
+                let plan = match rep % 3 { 0 => Plan::None, 1 => Plan::Canonical, _ => Plan::Arbitrary(Rng::for_case(seed, "c11-window-plan", idx)) };
+                let b = encode(&p.to_wire(0), plan).bytes;
+                ctx.add("messages_over_16k_with_a_name_at_the_pointer_limit", 1);
+                check_bytes(ctx, "window", idx, &b);
+            }
         }
     }
     // every 16-bit header word x small bodies
